@@ -81,11 +81,18 @@ def c01_unit_squared_component_underflows(site, w):
     ax, ay, x, y = _xy(w)
     mn = _MINNORMAL[w["dtype"]]
     lim = mn ** 0.5
+    big = {"complex64": 3.4028234663852886e38, "complex128": 1.7976931348623157e308, "float32": 3.4028234663852886e38, "float64": 1.7976931348623157e308}[w["dtype"]]
+
+    def tiny(v):
+        # v*v is subnormal / underflows, or (atanh, atan) the quotient 4 / (v*v) formed from it overflows: v*v < 4 / largest - for these types one more
+        # value, v == sqrt(smallest normal) exactly, where v*v is the smallest normal
+        return 0 < v < lim or (fn != "log1p" and 0 < v and v * v < 4.0 / big)
+
     if fn == "atan":
-        return ay == 1.0 and 0 < ax < lim
+        return ay == 1.0 and tiny(ax)
     if fn == "log1p":
-        return x == -1.0 and 0 < ay < lim
-    return ax == 1.0 and 0 < ay < lim
+        return x == -1.0 and tiny(ay)
+    return ax == 1.0 and tiny(ay)
 
 
 def c04_upcast_downcast_cancel(site, w):
